@@ -38,7 +38,7 @@ func chainSrc(steps []chainStep) string {
 }
 
 func suiteC19(cfg Config, res *Result) {
-	res.Rule = "chains of length 0..4 over the deterministic registered filters (from the VerifRegisteredFilters hook, so newly registered names are used), with literal and variable parameters, applied to string / int / float / list / nil values at every expression position (output, if, for, with, set, macro argument and default, subscript, firstof, ifequal, widthratio) and in the filter tag; three-way comparison: template output, the harness's own composition of public ApplyFilter calls, the Lean model; plus: unregistered tag/filter names are compile errors (filter tag: execution error at the latest) and registering twice is refused; non-trivial = chain length >= 2; distinct by source"
+	res.Rule = "chains of length 0..4 over the deterministic registered filters (from the VerifRegisteredFilters hook, so newly registered names are used), with literal and variable parameters, applied to string / int / float / list / nil values at every expression position (output, if, for, with, set, macro argument and default, subscript, firstof, ifequal, widthratio) and in the filter tag, also with parameters that mention the loop variable (plain and inside list literals) under a loop; three-way comparison: template output, the harness's own composition of public ApplyFilter calls, the Lean model; plus: unregistered tag/filter names are compile errors (filter tag: execution error at the latest) and registering twice is refused; non-trivial = chain length >= 2; distinct by source"
 	n := 4000
 	if cfg.Thorough() {
 		n = 80000
@@ -88,8 +88,8 @@ func suiteC19(cfg Config, res *Result) {
 		for j := 0; j < k; j++ {
 			f := rng.Pick(names)
 			p := ""
-			if ps, ok := c19Params[f]; ok {
-				p = rng.Pick(ps)
+			if ps, ok := c19Params[f]; ok && !rng.Chance(1, 3) {
+				p = rng.Pick(ps) // a third of the time the parameter is left out: every filter tolerates that
 			}
 			steps = append(steps, chainStep{f, p})
 		}
@@ -148,6 +148,46 @@ func suiteC19(cfg Config, res *Result) {
 			wants[pc.Req()] = "ok " + hxb(want)
 		} else {
 			wants[pc.Req()] = "err exec"
+		}
+	}
+	// a parameter is evaluated at every application: parameters that mention the loop variable
+	// (plain, or inside a list literal) under a loop, and across two executions with different contexts
+	items := []string{"x", "y", "z"}
+	for _, fp := range []struct{ base, filter string }{{"nl", "default"}, {"s", "add"}, {"t", "cut"}, {"l", "join"}, {"nl", "default_if_none"}} {
+		for _, shape := range []string{"q", "[q]", `[q, "k"]`, `[1, q]`} {
+			var sb strings.Builder
+			ok := true
+			for _, it := range items {
+				var pv *pongo2.Value
+				switch shape {
+				case "q":
+					pv = pongo2.AsValue(it)
+				case "[q]":
+					pv = pongo2.AsValue([]*pongo2.Value{pongo2.AsValue(it)})
+				case `[q, "k"]`:
+					pv = pongo2.AsValue([]*pongo2.Value{pongo2.AsValue(it), pongo2.AsValue("k")})
+				default:
+					pv = pongo2.AsValue([]*pongo2.Value{pongo2.AsValue(1), pongo2.AsValue(it)})
+				}
+				v, err := pongo2.ApplyFilter(fp.filter, toValue(ctxVals[fp.base]), pv)
+				if err != nil {
+					ok = false
+					break
+				}
+				v, err = pongo2.ApplyFilter("join", v, pongo2.AsValue("-"))
+				if err != nil {
+					ok = false
+					break
+				}
+				sb.WriteString(v.String() + ";")
+			}
+			if !ok {
+				continue
+			}
+			c := ct
+			pc := ProgCase{Src: "{% autoescape off %}{% for q in l %}{{ " + fp.base + "|" + fp.filter + ":" + shape + `|join:"-" }};{% endfor %}{% endautoescape %}`, Ctx: &c, Label: "loop-param/len=2"}
+			cases = append(cases, pc)
+			wants[pc.Req()] = "ok " + hxb(sb.String())
 		}
 	}
 	runProgCases(cfg, res, cases, "c19", func(c ProgCase, o ImplOutcome) bool {
